@@ -31,7 +31,7 @@ def run_case(ctx, res, spec, lines, post):
     xtest = system.sample_inputs(5)
     snaps = []
     for step in range(nsteps):
-        r = system.refine(num_refine=30, update_bounds=update_bounds)
+        r = system.refine(num_refine=30, update_bounds=update_bounds, targets=spec.get('targets'))
         if r['component'] is None:
             break
         system.train_history.append(r)
@@ -115,6 +115,20 @@ def run_case(ctx, res, spec, lines, post):
         res.hit('with-model-fidelity')
     if any(c['nosurr'] for c in spec['comps']):
         res.hit('with-surrogate-less-component')
+    if any(np.isnan(h['added_error']) for h in system.train_history[len(surr):]):
+        res.hit('non-initial-step-with-undefined-indicator')
+
+
+def zeroed(spec, k):
+    """every third system: the last surrogate component's model vanishes on its coarse grids and training targets only its
+    output, so that ordinary (non-initial) refinement steps are recorded with an undefined (NaN) error indicator"""
+    if k % 3 != 1:
+        return spec
+    last = [c for c in spec['comps'] if not c['nosurr']][-1]
+    last['kind'] = 'zero'
+    last['beta'] = [2 for _ in last['beta']]
+    spec['targets'] = [last['out']]
+    return spec
 
 
 def run(ctx: core.Ctx, only=None) -> core.Result:
@@ -125,7 +139,7 @@ def run(ctx: core.Ctx, only=None) -> core.Result:
                 'coupling bound moved). non-trivial = >= 6 iterations.')
     lines, post = [], []
     specs = [o.get('input', o).get('spec', o.get('input', o)) for o in only] if only is not None else \
-        [c.get('spec', c) for c in core.corpus_cases('C18')] + [sc.gen_system_spec(ctx.rng) for _ in range(ctx.scale(6, 60))]
+        [c.get('spec', c) for c in core.corpus_cases('C18')] + [zeroed(sc.gen_system_spec(ctx.rng), k) for k in range(ctx.scale(6, 60))]
     for spec in specs:
         with core.guarded(res, 'scenario-raised', {'spec': spec}):
             sub_lines, sub_post = [], []
